@@ -20,7 +20,6 @@ Record job := {
   j_gpu : gset task;                 (* tasks that need a GPU *)
   j_ext : gset ds;                   (* outputs requested by the caller *)
   j_none : gset ds;                  (* datasets whose value is Python's None *)
-  j_key : gmap ds N;                 (* shared-memory key of a dataset (memory.ds2shmid) *)
 }.
 
 Record env := {
@@ -34,10 +33,10 @@ Definition outs_list (J : job) (t : task) : list ds :=
   (λ i, (t, N.of_nat i)) <$> seq 0 (N.to_nat (nout J t)).
 Definition outs (J : job) (t : task) : gset ds := list_to_set (outs_list J t).
 Definition last_out (J : job) (t : task) : ds := (t, nout J t - 1).
-Definition key (J : job) (d : ds) : N := default 0 (j_key J !! d).
 Definition consumers (J : job) (d : ds) : gset task :=
   dom (filter (λ p, d ∈ p.2) (j_ins J)).
-Definition all_ds (J : job) : gset ds := set_fold (λ t acc, outs J t ∪ acc) ∅ (dom (j_ins J)).
+(* every dataset some task consumes *)
+Definition all_ins (J : job) : gset ds := map_fold (λ _ X acc, X ∪ acc) ∅ (j_ins J).
 
 (* ------------------------------------------------------------------ controller state *)
 Record cstate := {
@@ -64,8 +63,9 @@ Definition drop_ds (m : gmap (ds * host) bool) (d : ds) : gmap (ds * host) bool 
   filter (λ p, p.1.1 ≠ d) m.
 Definition avail_hosts (m : gmap (ds * host) bool) (d : ds) : gset host :=
   set_map snd (dom (filter (λ p, p.1.1 = d ∧ p.2 = true) m) : gset (ds * host)).
-Definition set_prep (m : gmap (ds * host) bool) (d : ds) (h : host) : gmap (ds * host) bool :=
-  match m !! (d, h) with Some true => m | _ => <[(d, h) := false]> m end.
+(* "preparing" entries for a set of datasets on one host *)
+Definition prep_map (h : host) (X : gset ds) : gmap (ds * host) bool :=
+  set_to_map (λ d, ((d, h), false)) X.
 
 Definition has_value (s : cstate) (d : ds) : bool :=
   match outputs s !! d with Some (Some _) => true | _ => false end.
@@ -88,7 +88,7 @@ Definition init_c (J : job) (E : env) : cstate := {|
   idle := dom (e_host E);
   ongoing := ∅;
   ds2host := ∅;
-  ptracker := set_to_map (λ d, (d, consumers J d)) (filter (λ d, consumers J d ≠ ∅) (all_ds J));
+  ptracker := set_to_map (λ d, (d, consumers J d)) (all_ins J);
   pqueue := ∅; fqueue := ∅; fetched := ∅; outputs := ∅;
   remaining := N.of_nat (size (dom (j_ins J)));
   seen := ∅; completed := ∅; purged := ∅;
@@ -189,7 +189,7 @@ Definition needs (J : job) (s : cstate) (t : task) (h : host) : gset ds :=
   filter (λ d, ds2host s !! (d, h) = None) (ins J t).
 
 Definition assign_c (J : job) (E : env) (s : cstate) (w : worker) (t : task) (srcs : gmap ds host)
-  : res (cstate * list cmd) :=
+  : res (cstate * host) :=
   match e_host E !! w with
   | None => Disabled
   | Some h =>
@@ -203,53 +203,52 @@ Definition assign_c (J : job) (E : env) (s : cstate) (w : worker) (t : task) (sr
                     && bool_decide (map_Forall (λ d src, ds2host s !! (d, src) = Some true) srcs))
       then Disabled
       else
-        let m1 := set_fold (λ d m, <[(d, h) := false]> m) (ds2host s) nd in
-        let m2 := set_fold (λ d m, set_prep m d h) m1 (outs J t) in
+        (* build_assignment marks the transmitted inputs, plan marks inputs and outputs "preparing"
+           on the worker's host; an existing entry (either status) is kept *)
+        let m2 := ds2host s ∪ prep_map h (ins J t ∪ outs J t) in
         match ongoing s !! w with
         | Some X => if bool_decide (t ∈ X) then Crash "double add"
                     else Next ({| computable := computable s ∖ {[t]}; tracker := tracker s;
                       idle := idle s ∖ {[w]}; ongoing := <[w := {[t]} ∪ X]> (ongoing s);
                       ds2host := m2; ptracker := ptracker s; pqueue := pqueue s; fqueue := fqueue s;
                       fetched := fetched s; outputs := outputs s; remaining := remaining s;
-                      seen := seen s; completed := completed s; purged := purged s |},
-                      ((λ p, CTransmit p.1 p.2 h) <$> map_to_list srcs) ++ [CTask w t])
+                      seen := seen s; completed := completed s; purged := purged s |}, h)
         | None => Next ({| computable := computable s ∖ {[t]}; tracker := tracker s;
                       idle := idle s ∖ {[w]}; ongoing := <[w := {[t]}]> (ongoing s);
                       ds2host := m2; ptracker := ptracker s; pqueue := pqueue s; fqueue := fqueue s;
                       fetched := fetched s; outputs := outputs s; remaining := remaining s;
-                      seen := seen s; completed := completed s; purged := purged s |},
-                      ((λ p, CTransmit p.1 p.2 h) <$> map_to_list srcs) ++ [CTask w t])
+                      seen := seen s; completed := completed s; purged := purged s |}, h)
         end
   end.
 
 (* --- flush_queues ----------------------------------------------------------------- *)
-Definition flush_c (J : job) (s : cstate) : cstate * list cmd :=
-  let fetch_cmds := (λ p, CFetch p.1 p.2) <$> map_to_list (fqueue s) in
+Definition flush_c (J : job) (s : cstate) : cstate * list (ds * host) * list (host * ds) :=
   let after_fetch := filter (λ d, no_dependants (ptracker s) d && not_required J s d = true) (dom (fqueue s)) in
   let pq := pqueue s ∪ after_fetch in
-  let purge_cmds := d ← elements pq; (λ h, CPurge h d) <$> elements (hosts_of (ds2host s) d) in
   ({| computable := computable s; tracker := tracker s; idle := idle s; ongoing := ongoing s;
       ds2host := filter (λ p, p.1.1 ∉ pq) (ds2host s);
       ptracker := filter (λ p, p.1 ∉ after_fetch) (ptracker s);
       pqueue := ∅; fqueue := ∅; fetched := fetched s ∪ dom (fqueue s); outputs := outputs s;
       remaining := remaining s; seen := seen s; completed := completed s; purged := purged s ∪ pq |},
-   fetch_cmds ++ purge_cmds).
+   map_to_list (fqueue s),
+   d ← elements pq; (λ h, (h, d)) <$> elements (hosts_of (ds2host s) d)).
 
 (* ------------------------------------------------------------------ the cluster *)
 Record sys := {
   ctl : cstate;
-  store : gmap (host * N) ds;          (* shm key -> dataset whose bytes are stored there *)
+  store : gset (host * ds);            (* which dataset is in which host's shared memory *)
   wq : gmap worker task;               (* task sequence held by a worker, not yet finished *)
   xfers : list (ds * host * host);     (* transmit commands not yet executed *)
   fetches : list (ds * host);
   purges : list (host * ds);
   pool : list event;                   (* events not yet delivered to the controller *)
   dispatched : list (worker * task);   (* ghost: history of task commands *)
+  finished : gset task;                (* ghost: tasks whose body has run *)
 }.
 
 Definition init (J : job) (E : env) : sys :=
   {| ctl := init_c J E; store := ∅; wq := ∅; xfers := []; fetches := []; purges := []; pool := [];
-     dispatched := [] |}.
+     dispatched := []; finished := ∅ |}.
 
 Inductive label :=
 | LAssign (w : worker) (t : task) (srcs : gmap ds host)
@@ -260,43 +259,31 @@ Inductive label :=
 | LFetch (x : ds * host)
 | LPurge (x : host * ds).
 
-Definition apply_cmd (s : sys) (c : cmd) : sys :=
-  match c with
-  | CTransmit d src tgt => {| ctl := ctl s; store := store s; wq := wq s; xfers := xfers s ++ [(d, src, tgt)];
-      fetches := fetches s; purges := purges s; pool := pool s; dispatched := dispatched s |}
-  | CTask w t => {| ctl := ctl s; store := store s; wq := <[w := t]> (wq s); xfers := xfers s;
-      fetches := fetches s; purges := purges s; pool := pool s; dispatched := dispatched s ++ [(w, t)] |}
-  | CFetch d h => {| ctl := ctl s; store := store s; wq := wq s; xfers := xfers s;
-      fetches := fetches s ++ [(d, h)]; purges := purges s; pool := pool s; dispatched := dispatched s |}
-  | CPurge h d => {| ctl := ctl s; store := store s; wq := wq s; xfers := xfers s;
-      fetches := fetches s; purges := purges s ++ [(h, d)]; pool := pool s; dispatched := dispatched s |}
-  end.
-
-Definition with_ctl (s : sys) (c : cstate) : sys :=
-  {| ctl := c; store := store s; wq := wq s; xfers := xfers s; fetches := fetches s; purges := purges s;
-     pool := pool s; dispatched := dispatched s |}.
-
-(* what a worker / data server reads under the key of d *)
-Definition read (J : job) (s : sys) (h : host) (d : ds) : option ds := store s !! (h, key J d).
-
 Definition exec (J : job) (E : env) (s : sys) (l : label) : res (sys * list cmd) :=
   match l with
   | LAssign w t srcs =>
       match assign_c J E (ctl s) w t srcs with
-      | Next (c, cmds) =>
+      | Next (c, h) =>
           if bool_decide (is_Some (wq s !! w)) then Fail "double task sequence enqueued"
-          else Next (foldl apply_cmd (with_ctl s c) cmds, cmds)
+          else Next ({| ctl := c; store := store s; wq := <[w := t]> (wq s);
+                        xfers := xfers s ++ ((λ p, (p.1, p.2, h)) <$> map_to_list srcs);
+                        fetches := fetches s; purges := purges s; pool := pool s;
+                        dispatched := dispatched s ++ [(w, t)]; finished := finished s |},
+                     ((λ p, CTransmit p.1 p.2 h) <$> map_to_list srcs) ++ [CTask w t])
       | Disabled => Disabled | Crash e => Crash e | Fail e => Fail e
       end
   | LFlush =>
-      let '(c, cmds) := flush_c J (ctl s) in Next (foldl apply_cmd (with_ctl s c) cmds, cmds)
+      let '(c, fl, pl) := flush_c J (ctl s) in
+      Next ({| ctl := c; store := store s; wq := wq s; xfers := xfers s; fetches := fetches s ++ fl;
+               purges := purges s ++ pl; pool := pool s; dispatched := dispatched s; finished := finished s |},
+            ((λ p, CFetch p.1 p.2) <$> fl) ++ ((λ p, CPurge p.1 p.2) <$> pl))
   | LDeliver ev =>
       match list_remove ev (pool s) with
       | None => Disabled
       | Some pool' =>
           match notify J E (ctl s) ev with
           | Next c => Next ({| ctl := c; store := store s; wq := wq s; xfers := xfers s; fetches := fetches s;
-                               purges := purges s; pool := pool'; dispatched := dispatched s |}, [])
+                               purges := purges s; pool := pool'; dispatched := dispatched s; finished := finished s |}, [])
           | Disabled => Disabled | Crash e => Crash e | Fail e => Fail e
           end
       end
@@ -304,49 +291,41 @@ Definition exec (J : job) (E : env) (s : sys) (l : label) : res (sys * list cmd)
       match wq s !! w, e_host E !! w with
       | Some t, Some h =>
           (* the worker loop starts the sequence only when every input has been announced on its host *)
-          if negb (bool_decide (set_Forall (λ d, is_Some (read J s h d)) (ins J t))) then Disabled
-          else if negb (bool_decide (set_Forall (λ d, read J s h d = Some d) (ins J t))) then Fail "task read another dataset's bytes"
-          else if negb (bool_decide (set_Forall (λ d, read J s h d = None) (outs J t))) then Fail "shm key already in use"
+          if negb (bool_decide (set_Forall (λ d, (h, d) ∈ store s) (ins J t))) then Disabled
+          else if negb (bool_decide (set_Forall (λ d, (h, d) ∉ store s) (outs J t))) then Fail "output already present in shared memory"
           else Next ({| ctl := ctl s;
-                        store := foldr (λ d m, <[(h, key J d) := d]> m) (store s) (outs_list J t);
+                        store := store s ∪ set_map (λ d, (h, d)) (outs J t);
                         wq := delete w (wq s); xfers := xfers s; fetches := fetches s; purges := purges s;
-                        pool := pool s ++ (EPub w <$> outs_list J t); dispatched := dispatched s |}, [])
+                        pool := pool s ++ (EPub w <$> outs_list J t); dispatched := dispatched s;
+                        finished := {[t]} ∪ finished s |}, [])
       | _, _ => Disabled
       end
   | LXfer (d, src, tgt) =>
       match list_remove (d, src, tgt) (xfers s) with
       | None => Disabled
       | Some xfers' =>
-          match read J s src d with
-          | None => Fail "transmit source does not hold the dataset"
-          | Some d' =>
-              if negb (bool_decide (d' = d)) then Fail "transmit read another dataset's bytes"
-              else Next ({| ctl := ctl s;
-                            store := match read J s tgt d with Some _ => store s | None => <[(tgt, key J d) := d]> (store s) end;
-                            wq := wq s; xfers := xfers'; fetches := fetches s; purges := purges s;
-                            pool := pool s ++ [EXfer tgt d]; dispatched := dispatched s |}, [])
-          end
+          if negb (bool_decide ((src, d) ∈ store s)) then Fail "transmit source does not hold the dataset"
+          else Next ({| ctl := ctl s; store := {[(tgt, d)]} ∪ store s;
+                        wq := wq s; xfers := xfers'; fetches := fetches s; purges := purges s;
+                        pool := pool s ++ [EXfer tgt d]; dispatched := dispatched s; finished := finished s |}, [])
       end
   | LFetch (d, src) =>
       match list_remove (d, src) (fetches s) with
       | None => Disabled
       | Some fetches' =>
-          match read J s src d with
-          | None => Fail "fetch source does not hold the dataset"
-          | Some d' =>
-              Next ({| ctl := ctl s; store := store s; wq := wq s; xfers := xfers s; fetches := fetches';
+          if negb (bool_decide ((src, d) ∈ store s)) then Fail "fetch source does not hold the dataset"
+          else Next ({| ctl := ctl s; store := store s; wq := wq s; xfers := xfers s; fetches := fetches';
                        purges := purges s;
-                       pool := pool s ++ [EPay d (if bool_decide (d' ∈ j_none J) then None else Some d')];
-                       dispatched := dispatched s |}, [])
-          end
+                       pool := pool s ++ [EPay d (if bool_decide (d ∈ j_none J) then None else Some d)];
+                       dispatched := dispatched s; finished := finished s |}, [])
       end
   | LPurge (h, d) =>
       match list_remove (h, d) (purges s) with
       | None => Disabled
       | Some purges' =>
-          Next ({| ctl := ctl s; store := delete (h, key J d) (store s); wq := wq s; xfers := xfers s;
+          Next ({| ctl := ctl s; store := store s ∖ {[(h, d)]}; wq := wq s; xfers := xfers s;
                    fetches := fetches s; purges := purges'; pool := pool s;
-                   dispatched := dispatched s |}, [])
+                   dispatched := dispatched s; finished := finished s |}, [])
       end
   end.
 
